@@ -256,7 +256,8 @@ class XPowGate(eigen_gate.EigenGate):
                 return args.format('x {0};\n', qubits[0])
             elif self._exponent == 0.5:
                 return args.format('sx {0};\n', qubits[0])
-            elif self._exponent == -0.5:
+            elif self._exponent == -0.5 and args.version == '2.0':
+                # stdgates.inc of OpenQASM 3 defines sx but not sxdg.
                 return args.format('sxdg {0};\n', qubits[0])
         return args.format('rx({0:half_turns}) {1};\n', self._exponent, qubits[0])
 
